@@ -3,7 +3,7 @@ from harness.core import hx, unhx
 from harness import pktutil as pu
 
 ID = "C13"
-REQUIRED_THEOREMS = ["accessors_create", "layout", "accessors_spec", "rejects", "created_wf", "reframe", "create_eq"]
+REQUIRED_THEOREMS = ["accessors_create", "layout", "accessors_spec", "rejects", "created_wf", "reframe", "reframe_with_prefix", "create_eq"]
 RULE = ("requests `mkpkt v t s apid sf sc <data>`, `hdr <packet>`, `frame ...` of constructed packets; every field over "
         "its whole range with the others at all-zeros / all-ones / random, all pairwise boundary combinations "
         "(min, max, min-1, max+1), all 2^16 values of each 16-bit header word (thorough; stratified in quick), data "
